@@ -22,10 +22,13 @@
     (c)->out_tx->response_message_len >= 0 && (c)->out_tx->response_message_len <= OFFMAX && \
     (c)->out_tx->response_entity_len >= 0 && (c)->out_tx->response_entity_len <= OFFMAX)
 
+#define RQ_SELF(c, SELF) ((c)->in_state == SELF && (c)->in_status != HTP_STREAM_STOP && (c)->in_status != HTP_STREAM_ERROR)
+#define RS_SELF(c, SELF) ((c)->out_state == SELF && (c)->out_status != HTP_STREAM_STOP && (c)->out_status != HTP_STREAM_ERROR)
 /* ---- body sink stubs: any return code; the call is logged -------------------------------------- */
 #define BODY_LOG_ASSIGNS g_body_n, g_body_ptr, g_body_len, g_body_rc
+/* the sinks map every callback failure to HTP_ERROR (enforced on the real functions) */
 #define BODY_LOG_POST(data, len) (g_body_n == __CPROVER_old(g_body_n) + 1 && g_body_ptr == (const unsigned char *)(data) && \
-    g_body_len == (len) && g_body_rc == __CPROVER_return_value)
+    g_body_len == (len) && g_body_rc == __CPROVER_return_value && (__CPROVER_return_value == HTP_OK || __CPROVER_return_value == HTP_ERROR))
 /* The stub's frame is the accounting-relevant part of the real function's frame: it does not touch the
  * cursor, the message length or the state.  That frame is enforced on the real function by the units
  * htp_tx_req_process_body_data_ex / htp_tx_res_process_body_data_ex (C06). */
@@ -46,6 +49,24 @@ __CPROVER_requires(1) __CPROVER_assigns() __CPROVER_ensures(1);
 
 /* ---- request body states (C06) ------------------------------------------------------------------ */
 #define O(e) __CPROVER_old(e)
+/* DATA / DATA_BUFFER are only returned with the chunk exhausted; the cursor stays ordered and never moves back; chunk identity is kept */
+#define RQ_COMMON_POST(c) ( \
+    ((__CPROVER_return_value == HTP_DATA || __CPROVER_return_value == HTP_DATA_BUFFER) ==> (c)->in_current_read_offset == (c)->in_current_len) && \
+    CUR_IN_CURSOR(c) && (c)->in_current_read_offset >= O((c)->in_current_read_offset) && \
+    (c)->in_current_len == O((c)->in_current_len) && (c)->in_current_data == O((c)->in_current_data) && \
+    (c)->conn == O((c)->conn) && (c)->cfg == O((c)->cfg) && (c)->in_chunk_count == O((c)->in_chunk_count) && \
+    IS_REQ_STATE((c)->in_state) && REQ_TX_INV(c) && \
+    /* a state function never reports the sticky states itself; only CONNECT handling touches the stream states */ \
+    (c)->in_status != HTP_STREAM_STOP && (c)->in_status != HTP_STREAM_ERROR)
+/* DATA / DATA_BUFFER are only returned with the chunk exhausted; the cursor stays ordered and never moves back; chunk identity is kept */
+#define RS_COMMON_POST(c) ( \
+    ((__CPROVER_return_value == HTP_DATA || __CPROVER_return_value == HTP_DATA_BUFFER) ==> (c)->out_current_read_offset == (c)->out_current_len) && \
+    CUR_OUT_CURSOR(c) && \
+    (c)->out_current_len == O((c)->out_current_len) && (c)->out_current_data == O((c)->out_current_data) && \
+    (c)->conn == O((c)->conn) && (c)->cfg == O((c)->cfg) && \
+    IS_RES_STATE((c)->out_state) && RES_TX_INV(c) && \
+    /* a state function never reports the sticky states itself; only CONNECT handling touches the stream states */ \
+    (c)->out_status != HTP_STREAM_STOP && (c)->out_status != HTP_STREAM_ERROR)
 #define MIN64(a, b) ((a) < (b) ? (a) : (b))
 /* n = bytes this call may take: min(owed, available) */
 #define REQ_AVAIL(c) ((c)->in_current_len - (c)->in_current_read_offset)
@@ -83,14 +104,16 @@ __CPROVER_requires(1) __CPROVER_assigns() __CPROVER_ensures(1);
     (c)->in_tx->request_message_len, (c)->in_tx->request_entity_len, (c)->LEFT, (c)->in_state
 
 htp_status_t contract_htp_connp_REQ_BODY_IDENTITY(htp_connp_t *connp)
-__CPROVER_requires(CUR_IN(connp) && TX_IN(connp) && !g_in_gap && connp->in_body_data_left > 0 && g_body_n == 0)
+__CPROVER_requires(CUR_IN(connp) && TX_IN(connp) && !g_in_gap && connp->in_body_data_left > 0 && g_body_n == 0 && RQ_SELF(connp, htp_connp_REQ_BODY_IDENTITY))
 __CPROVER_assigns(BODY_ASSIGNS(connp, in_body_data_left))
 BODY_ENSURES(connp, in_body_data_left, htp_connp_REQ_FINALIZE)
+__CPROVER_ensures(RQ_COMMON_POST(connp))
 ;
 htp_status_t contract_htp_connp_REQ_BODY_CHUNKED_DATA(htp_connp_t *connp)
-__CPROVER_requires(CUR_IN(connp) && TX_IN(connp) && !g_in_gap && connp->in_chunked_length > 0 && g_body_n == 0)
+__CPROVER_requires(CUR_IN(connp) && TX_IN(connp) && !g_in_gap && connp->in_chunked_length > 0 && g_body_n == 0 && RQ_SELF(connp, htp_connp_REQ_BODY_CHUNKED_DATA))
 __CPROVER_assigns(BODY_ASSIGNS(connp, in_chunked_length))
 BODY_ENSURES(connp, in_chunked_length, htp_connp_REQ_BODY_CHUNKED_DATA_END)
+__CPROVER_ensures(RQ_COMMON_POST(connp))
 ;
 
 /* ---- response body states (C06) ------------------------------------------------------------------ */
@@ -110,7 +133,7 @@ BODY_ENSURES(connp, in_chunked_length, htp_connp_REQ_BODY_CHUNKED_DATA_END)
         (c)->LEFT == O((c)->LEFT) - MIN64(O((c)->LEFT), OAVAIL_OUT(c))))
 
 htp_status_t contract_htp_connp_RES_BODY_CHUNKED_DATA(htp_connp_t *connp)
-__CPROVER_requires(CUR_OUT(connp) && TX_OUT(connp) && !g_in_gap && connp->out_chunked_length > 0 && g_body_n == 0)
+__CPROVER_requires(CUR_OUT(connp) && TX_OUT(connp) && !g_in_gap && connp->out_chunked_length > 0 && g_body_n == 0 && RS_SELF(connp, htp_connp_RES_BODY_CHUNKED_DATA))
 __CPROVER_assigns(RBODY_ASSIGNS(connp, out_chunked_length))
 __CPROVER_ensures(RBODY_P1(connp, out_chunked_length))
 __CPROVER_ensures(OAVAIL_OUT(connp) > 0 ==> (g_body_n == 1 && g_body_ptr == O(connp->out_current_data) + O(connp->out_current_read_offset) &&
@@ -126,13 +149,13 @@ __CPROVER_ensures((OAVAIL_OUT(connp) > 0 && g_body_rc == HTP_OK) ==> (
     connp->out_chunked_length == O(connp->out_chunked_length) - (int64_t) g_body_len &&
     (connp->out_chunked_length == 0 ? (__CPROVER_return_value == HTP_OK && connp->out_state == htp_connp_RES_BODY_CHUNKED_DATA_END)
         : (__CPROVER_return_value == HTP_DATA && connp->out_current_read_offset == connp->out_current_len && connp->out_state == O(connp->out_state)))))
-__CPROVER_ensures(CUR_OUT_CURSOR(connp))
+__CPROVER_ensures(RS_COMMON_POST(connp))
 ;
 
 /* Content-Length delimited response body: as above, plus the end-of-body marker (NULL,0) handed to the sink
  * when the body completes or the stream closes early. */
 htp_status_t contract_htp_connp_RES_BODY_IDENTITY_CL_KNOWN(htp_connp_t *connp)
-__CPROVER_requires(CUR_OUT(connp) && TX_OUT(connp) && !g_in_gap && connp->out_body_data_left > 0 && g_body_n == 0)
+__CPROVER_requires(CUR_OUT(connp) && TX_OUT(connp) && !g_in_gap && connp->out_body_data_left > 0 && g_body_n == 0 && RS_SELF(connp, htp_connp_RES_BODY_IDENTITY_CL_KNOWN))
 __CPROVER_assigns(RBODY_ASSIGNS(connp, out_body_data_left))
 /* closed stream: only the end marker is delivered, state moves to FINALIZE, cursor untouched */
 __CPROVER_ensures(connp->out_status == HTP_STREAM_CLOSED ==> (g_body_n == 1 && g_body_ptr == NULL && g_body_len == 0 &&
@@ -157,12 +180,12 @@ __CPROVER_ensures((connp->out_status != HTP_STREAM_CLOSED && OAVAIL_OUT(connp) >
         connp->out_stream_offset == O(connp->out_stream_offset) + O(connp->out_body_data_left) &&
         connp->out_current_consume_offset == O(connp->out_current_consume_offset) + O(connp->out_body_data_left) &&
         connp->out_tx->response_message_len == O(connp->out_tx->response_message_len) + O(connp->out_body_data_left)))))
-__CPROVER_ensures(CUR_OUT_CURSOR(connp))
+__CPROVER_ensures(RS_COMMON_POST(connp))
 ;
 
 /* close-delimited body: everything available is body */
 htp_status_t contract_htp_connp_RES_BODY_IDENTITY_STREAM_CLOSE(htp_connp_t *connp)
-__CPROVER_requires(CUR_OUT(connp) && TX_OUT(connp) && !g_in_gap && g_body_n == 0)
+__CPROVER_requires(CUR_OUT(connp) && TX_OUT(connp) && !g_in_gap && g_body_n == 0 && RS_SELF(connp, htp_connp_RES_BODY_IDENTITY_STREAM_CLOSE))
 __CPROVER_assigns(BODY_LOG_ASSIGNS, connp->out_current_read_offset, connp->out_current_consume_offset, connp->out_stream_offset, connp->out_tx->response_message_len, connp->out_tx->response_entity_len, connp->out_state)
 __CPROVER_ensures(OAVAIL_OUT(connp) == 0 ==> (g_body_n == 0 && connp->out_current_read_offset == O(connp->out_current_read_offset)))
 __CPROVER_ensures(OAVAIL_OUT(connp) > 0 ==> (g_body_n == 1 && g_body_ptr == O(connp->out_current_data) + O(connp->out_current_read_offset) && (int64_t) g_body_len == OAVAIL_OUT(connp)))
@@ -174,6 +197,7 @@ __CPROVER_ensures((OAVAIL_OUT(connp) == 0 || g_body_rc == HTP_OK) ==> (
     connp->out_tx->response_message_len == O(connp->out_tx->response_message_len) + OAVAIL_OUT(connp) &&
     (connp->out_status == HTP_STREAM_CLOSED ? (__CPROVER_return_value == HTP_OK && connp->out_state == htp_connp_RES_FINALIZE)
                                             : (__CPROVER_return_value == HTP_DATA && connp->out_state == O(connp->out_state)))))
+__CPROVER_ensures(RS_COMMON_POST(connp))
 ;
 
 /* ---- the body sinks themselves (real functions; hook runner and decompressor replaced) ------------ */
@@ -228,30 +252,21 @@ __CPROVER_ensures(__CPROVER_return_value == (g_hook_rc == HTP_OK ? HTP_OK : HTP_
     ((gk < CHUNK_CAP && (int64_t) gk >= O((c)->READ) && (int64_t) gk + 1 < (c)->READ) ==> (c)->D[gk] != LF) && \
     ((__CPROVER_return_value == HTP_DATA && gk < CHUNK_CAP && (int64_t) gk >= O((c)->READ) && (int64_t) gk < (c)->READ) ==> (c)->D[gk] != LF))
 htp_status_t contract_htp_connp_REQ_BODY_CHUNKED_DATA_END(htp_connp_t *connp)
-__CPROVER_requires(CUR_IN(connp) && TX_IN(connp) && !g_in_gap)
+__CPROVER_requires(CUR_IN(connp) && TX_IN(connp) && !g_in_gap && RQ_SELF(connp, htp_connp_REQ_BODY_CHUNKED_DATA_END))
 __CPROVER_assigns(connp->in_next_byte, connp->in_current_read_offset, connp->in_current_consume_offset, connp->in_stream_offset, connp->in_tx->request_message_len, connp->in_state)
 __CPROVER_ensures(DATA_END_POST(connp, in_current_data, in_current_len, in_current_read_offset, in_current_consume_offset, in_stream_offset, connp->in_tx->request_message_len, in_state, htp_connp_REQ_BODY_CHUNKED_LENGTH))
-__CPROVER_ensures(CUR_IN_CURSOR(connp))
+__CPROVER_ensures(RQ_COMMON_POST(connp))
 ;
 htp_status_t contract_htp_connp_RES_BODY_CHUNKED_DATA_END(htp_connp_t *connp)
-__CPROVER_requires(CUR_OUT(connp) && TX_OUT(connp) && !g_in_gap)
+__CPROVER_requires(CUR_OUT(connp) && TX_OUT(connp) && !g_in_gap && RS_SELF(connp, htp_connp_RES_BODY_CHUNKED_DATA_END))
 __CPROVER_assigns(connp->out_next_byte, connp->out_current_read_offset, connp->out_current_consume_offset, connp->out_stream_offset, connp->out_tx->response_message_len, connp->out_state)
 __CPROVER_ensures(DATA_END_POST(connp, out_current_data, out_current_len, out_current_read_offset, out_current_consume_offset, out_stream_offset, connp->out_tx->response_message_len, out_state, htp_connp_RES_BODY_CHUNKED_LENGTH))
-__CPROVER_ensures(CUR_OUT_CURSOR(connp))
+__CPROVER_ensures(RS_COMMON_POST(connp))
 ;
 
 /* ==== request driver (C09, C16) ===================================================================== */
 /* The contract every request state function is replaced by when the DRIVER is verified.  Each state
  * function's own enforced contract contains these clauses (macro RQ_COMMON_*), so enforced => shared. */
-/* DATA / DATA_BUFFER are only returned with the chunk exhausted; the cursor stays ordered and never moves back; chunk identity is kept */
-#define RQ_COMMON_POST(c) ( \
-    ((__CPROVER_return_value == HTP_DATA || __CPROVER_return_value == HTP_DATA_BUFFER) ==> (c)->in_current_read_offset == (c)->in_current_len) && \
-    CUR_IN_CURSOR(c) && (c)->in_current_read_offset >= O((c)->in_current_read_offset) && \
-    (c)->in_current_len == O((c)->in_current_len) && (c)->in_current_data == O((c)->in_current_data) && \
-    (c)->conn == O((c)->conn) && (c)->cfg == O((c)->cfg) && (c)->in_chunk_count == O((c)->in_chunk_count) && \
-    IS_REQ_STATE((c)->in_state) && REQ_TX_INV(c) && \
-    /* a state function never reports the sticky states itself; only CONNECT handling touches the stream states */ \
-    (c)->in_status != HTP_STREAM_STOP && (c)->in_status != HTP_STREAM_ERROR)
 /* a request transaction is attached in every state except IDLE and the HTTP/0.9 drain state */
 /* make every state function address-taken in this TU, so that CBMC's function-pointer removal knows the full target set */
 int (*v_all_states[])(htp_connp_t *) = { htp_connp_REQ_IDLE, htp_connp_REQ_LINE, htp_connp_REQ_PROTOCOL, htp_connp_REQ_HEADERS,
@@ -329,15 +344,6 @@ __CPROVER_ensures(IS_REQ_STATE(connp->in_state))
 /* ==== response driver (C09, C16) ===================================================================== */
 /* The contract every response state function is replaced by when the DRIVER is verified.  Each state
  * function's own enforced contract contains these clauses (macro RS_COMMON_*), so enforced => shared. */
-/* DATA / DATA_BUFFER are only returned with the chunk exhausted; the cursor stays ordered and never moves back; chunk identity is kept */
-#define RS_COMMON_POST(c) ( \
-    ((__CPROVER_return_value == HTP_DATA || __CPROVER_return_value == HTP_DATA_BUFFER) ==> (c)->out_current_read_offset == (c)->out_current_len) && \
-    CUR_OUT_CURSOR(c) && \
-    (c)->out_current_len == O((c)->out_current_len) && (c)->out_current_data == O((c)->out_current_data) && \
-    (c)->conn == O((c)->conn) && (c)->cfg == O((c)->cfg) && \
-    IS_RES_STATE((c)->out_state) && RES_TX_INV(c) && \
-    /* a state function never reports the sticky states itself; only CONNECT handling touches the stream states */ \
-    (c)->out_status != HTP_STREAM_STOP && (c)->out_status != HTP_STREAM_ERROR)
 /* a request transaction is attached in every state except IDLE and the HTTP/0.9 drain state */
 htp_status_t contract_res_state(htp_connp_t *connp)
 __CPROVER_requires(__CPROVER_rw_ok(connp, sizeof(*connp)) && CUR_OUT_CURSOR(connp) && IS_RES_STATE(connp->out_state))
